@@ -17,10 +17,10 @@ def mc_stage(tier):
             'wall_s': round(r.wall, 1)}, cfg
 
 
-def record_pts(pid, path, pcfg, flags, tid0, rng, desc, traces, meta, strings, otraces=None):
+def record_pts(pid, path, pcfg, flags, tid0, rng, desc, traces, meta, strings, otraces=None, pts=None):
     fileprobs = expand.file_prob_ranks(path, pcfg)
     tid = tid0
-    for b, pt in expand.all_pts(pcfg):
+    for b, pt in (pts if pts is not None else expand.all_pts(pcfg)):
         groups = expand.pt_groups(pcfg, pt, path, fileprobs, synth_caps=flags.get('skip_case', False))
         lines, n = expand.expand_real(pcfg, pt)
         is_m = groups[0]['k'] == 'markov'
@@ -136,6 +136,24 @@ def main(pid, tier, seed):
         for k in range(2 if tier == 'quick' else 20):
             d = os.path.join(work, 'dense%d' % k)
             rule_dirs.append((d, expand.dense_omen_ruleset(rng, d)))
+
+    # ---- C04 on the shipped ruleset: the pre-terminals the real queue pops first (those whose product has at most 300 strings)
+    n_shipped_pts = 0
+    if pid == 'C04':
+        sd_ = os.path.join(core.REPO, 'Rules', 'Default')
+        if os.path.isdir(os.path.join(sd_, 'Grammar')):
+            spc = ptq.load_pcfg(sd_, skip_brute=True)
+            hist = ptq.run_history(spc, [], with_queue=False, max_pops=120 if tier == 'quick' else 2500)
+            sel = []
+            for it, _ in hist['sessions'][0]['ev']:
+                size = 1
+                for t_, i_ in it['pt']:
+                    size *= len(spc.grammar[t_][i_]['values'])
+                if size <= 300:
+                    sel.append((None, [tuple(x) for x in it['pt']]))
+            before_ = len(traces)
+            tid = record_pts(pid, sd_, spc, {'skip_brute': True}, tid, rng, {'kind': 'shipped ruleset Default'}, traces, meta, strings, otraces, pts=sel)
+            n_shipped_pts = len(traces) - before_
 
     limit_jobs = []
     for d, desc in rule_dirs:
@@ -376,7 +394,7 @@ def main(pid, tier, seed):
         'evaluations': len(traces), 'distinct_nontrivial': distinct,
         'rule': 'pt trace = one real create_guesses call on one pre-terminal; limit trace = one real run with --limit N '
                 '(in-process session or CLI subprocess); non-trivial = more than one line; distinct by groups/N/lines',
-        'trace_kinds': kinds, 'rulesets': len(rule_dirs), 'cli_runs': cli_runs,
+        'trace_kinds': kinds, 'pre_terminals_of_the_shipped_ruleset_expanded': n_shipped_pts, 'rulesets': len(rule_dirs), 'cli_runs': cli_runs,
         'model_pt_space_instantiated': cat['NPT'],
         'impl_conformance': {'traces': kinds.get('gen', 0), 'result': 'drift' if drift else 'conforms',
                              'drift_examples': [core.short(d, 300) for d in drift[:3]]},
